@@ -115,10 +115,15 @@ func runText(tc *textCase) (textRes, []failure) {
 			_ = addresses.IsValidSharedPortID(s)
 		case "version":
 			v, ok := version.Parse(s)
+			al := false
 			if ok {
 				_ = v.String()
-				_ = v.AtLeast(version.CondorVersion{Major: 9, Minor: 9})
+				al = v.AtLeast(version.CondorVersion{Major: 9, Minor: 9})
+				if bs := message.NewHTCondorVersion(v.Major, v.Minor, v.Sub).BuiltSinceVersion(9, 9, 0); bs != al {
+					extra = append(extra, failure{"version-gate", fmt.Sprintf("BuiltSinceVersion(9,9,0)=%v but AtLeast(9.9.0)=%v for %v", bs, al, v)})
+				}
 			}
+			res.strs = []string{fmt.Sprint(ok), fmt.Sprint(v.Major), fmt.Sprint(v.Minor), fmt.Sprint(v.Sub), fmt.Sprint(al)}
 		case "sp_header":
 			cr := &countReader{r: bytes.NewReader(tc.In)}
 			err := sharedport.VerifC13ReadPassSockHeader(cr)
@@ -226,6 +231,18 @@ func addTextCase(c *core.Ctx, fn string, in []byte) {
 		if len(keys) > 0 {
 			c.Nontrivial("attrs|" + string(in))
 		}
+	case "version":
+		st := res.strs
+		zt := func(x string) string {
+			if strings.HasPrefix(x, "-") {
+				return "(" + x + ")%Z"
+			}
+			return x + "%Z"
+		}
+		c.AddCase(fmt.Sprintf("CVersion %s %s %s %s %s %s", bytesTerm(in), st[0], zt(st[1]), zt(st[2]), zt(st[3]), st[4]), tc)
+		if st[0] == "true" {
+			c.Nontrivial("version|" + string(in))
+		}
 	case "sinful":
 		st := res.strs
 		nAddrs := 0
@@ -255,6 +272,40 @@ func addTextCase(c *core.Ctx, fn string, in []byte) {
 		}
 	default:
 		c.Evaluated(1)
+	}
+}
+
+// genVersion: version strings around every decision of Parse / Atoi.
+func genVersion(c *core.Ctx) {
+	nums := []string{"0", "9", "10", "25", "007", "+3", "-3", "+", "-", "", "9223372036854775807", "9223372036854775808", "-9223372036854775808",
+		"-9223372036854775809", "99999999999999999999", "123456789012345678", "1234567890123456789", "1_0", "0x10", "1e3", " 1", "1a", "\xff"}
+	for i, a := range nums {
+		for j, b := range nums {
+			if (i*7+j*3)%5 != 0 && !(i < 4 && j < 4) {
+				continue
+			}
+			for k, cc := range []string{"", ".0", "." + nums[(i+j)%len(nums)], ".1.2", "."} {
+				if c.Quick() && (i+j+k)%2 == 1 && !(i < 4 && j < 4 && k < 2) {
+					continue
+				}
+				v := a + "." + b + cc
+				addTextCase(c, "version", []byte(v))
+				if (i+j+k)%3 == 0 {
+					addTextCase(c, "version", []byte("$CondorVersion: "+v+" 2025-11-01 BuildID: 1 $"))
+					addTextCase(c, "version", []byte("junk 1. .2 x.y\t"+v+":9.9.9"))
+				}
+			}
+		}
+	}
+	for _, s := range []string{"", ".", "..", "...", "1", "1.", ".1", "$:$ \t", "9.9", "9.8.99", "9.10.0", "10.0.0", "8.99.99", "9.9.-1", "a.b 1.c 2.3", "1.2$3.4", "1..2", "1.2..", "\x001.2", "1.2\x00"} {
+		addTextCase(c, "version", []byte(s))
+	}
+	n := 40
+	if !c.Quick() {
+		n = 600
+	}
+	for i := 0; i < n; i++ {
+		addTextCase(c, "version", mutateText(c, []byte("$CondorVersion: 25.4.0 2025-11-01 $")))
 	}
 }
 
